@@ -245,7 +245,7 @@ def run_grid_case(case):
     data = bytes((11 * i + case["size"]) & 0xFF for i in range(case["size"]))
     outcomes = []
     with G.Grid(num_servers=case["servers"], k=case["k"], n=case["n"], happy=1, max_segment_size=case["segsize"], seed=case["seed"],
-                timeout=case.get("timeout", 8), threads=case.get("threads", False)) as g:
+                timeout=case.get("timeout", 15), threads=case.get("threads", False)) as g:
         cap = SQ.bad_upload(g, data, case["badleaf"]) if case["badleaf"] else g.run(g.upload(data, convergence=b"c46"))
         for shnum in case["delete"]:
             g.delete_shares(cap, shnums=[shnum])
@@ -290,9 +290,56 @@ def run_grid_case(case):
     return outcomes, data
 
 
+def judge_grid_case(ctx, case, outcomes, data):
+    """The property's own rule on one grid case; returns the list of per-read statuses."""
+    from twisted.python.failure import Failure
+    statuses = []
+    for (off, sz), o in zip(case["reads"], outcomes):
+        st = o.status
+        val = o.value
+        if st == "ok" and isinstance(val, Failure):
+            st, err = "error", val.value.__class__.__name__
+        else:
+            err = o.error
+        statuses.append(st if st != "error" else "error:" + str(err))
+        want = data[off:] if sz is None else data[off:off + sz]
+        if st in ("hung", "timeout"):
+            kind = "read-never-completes"
+            if case["badleaf"] or case["decode_fail"]:
+                kind = "read-never-completes-after-failed-segment"
+            elif st == "timeout" and (case.get("truncate") or case.get("header") or any(f.get("how") == "empty" for f in case["plan"])):
+                kind = "read-spins-on-short-answer"
+            if kind == "read-spins-on-short-answer":
+                what = ("read(%d,%r) number %d on the node did not finish within %d s (about 100x a normal case): the downloader keeps issuing "
+                        "read calls for bytes the server has already answered short (earlier reads: %r)" % (off, sz, len(statuses) - 1, case.get("timeout", 15), statuses[:-1]))
+            else:
+                what = ("read(%d,%r) number %d on the node is %s: the event queue is drained, every server call answered, all timers fired, and the read "
+                        "has delivered neither data nor an error (earlier reads: %r)" % (off, sz, len(statuses) - 1, st, statuses[:-1]))
+            ctx.oracle_fail(kind, what, case=case, expected="data or an error", observed=statuses)
+            break
+        if st == "ok" and val != want:
+            ctx.oracle_fail("read-returned-wrong-bytes", "read(%d,%r) returned %d bytes that are not the plaintext slice" % (off, sz, len(val)), case=case,
+                            expected=want.hex(), observed=val.hex())
+    return statuses
+
+
+def corpus_cases(ctx):
+    """minimised past failures, run first"""
+    import glob
+    import json
+    import os
+    from core import env
+    for path in sorted(glob.glob(os.path.join(env.CORPUS, "C46", "*.json"))):
+        case = json.load(open(path))["case"]
+        outcomes, data = run_grid_case(case)
+        statuses = judge_grid_case(ctx, case, outcomes, data)
+        ctx.case((os.path.basename(path), tuple(statuses)), kind="corpus")
+        ctx.count("corpus:" + os.path.basename(path))
+
+
 def grid_cases(ctx):
     ctx.correspondence("grid-reads-terminate")
-    from twisted.python.failure import Failure
+    corpus_cases(ctx)
     n = ctx.n(60, 500)
     for i in range(n):
         r = ctx.rng("grid", i)
@@ -301,33 +348,7 @@ def grid_cases(ctx):
         if outcomes is None:
             ctx.case(None, kind="grid:literal")
             continue
-        statuses = []
-        for (off, sz), o in zip(case["reads"], outcomes):
-            st = o.status
-            val = o.value
-            if st == "ok" and isinstance(val, Failure):
-                st, err = "error", val.value.__class__.__name__
-            else:
-                err = o.error
-            statuses.append(st if st != "error" else "error:" + str(err))
-            want = data[off:] if sz is None else data[off:off + sz]
-            if st in ("hung", "timeout"):
-                kind = "read-never-completes"
-                if case["badleaf"] or case["decode_fail"]:
-                    kind = "read-never-completes-after-failed-segment"
-                elif st == "timeout" and (case.get("truncate") or case.get("header") or any(f.get("how") == "empty" for f in case["plan"])):
-                    kind = "read-spins-on-short-answer"
-                if kind == "read-spins-on-short-answer":
-                    what = ("read(%d,%r) number %d on the node did not finish within %d s (about 100x a normal case): the downloader keeps issuing "
-                            "read calls for bytes the server has already answered short (earlier reads: %r)" % (off, sz, len(statuses) - 1, case.get("timeout", 8), statuses[:-1]))
-                else:
-                    what = ("read(%d,%r) number %d on the node is %s: the event queue is drained, every server call answered, all timers fired, and the read "
-                            "has delivered neither data nor an error (earlier reads: %r)" % (off, sz, len(statuses) - 1, st, statuses[:-1]))
-                ctx.oracle_fail(kind, what, case=case, expected="data or an error", observed=statuses)
-                break
-            if st == "ok" and val != want:
-                ctx.oracle_fail("read-returned-wrong-bytes", "read(%d,%r) returned %d bytes that are not the plaintext slice" % (off, sz, len(val)), case=case,
-                                expected=want.hex(), observed=val.hex())
+        statuses = judge_grid_case(ctx, case, outcomes, data)
         failing = any(s.startswith("error") for s in statuses)
         ctx.case((case["seed"], tuple(statuses)) if failing and len(statuses) > 1 else None,
                  kind="grid:" + ("hung" if any(s in ("hung", "timeout") for s in statuses) else ("error-then-more" if failing else "all-ok")))
